@@ -114,13 +114,16 @@ func (c *Client) handshake(ctx context.Context) error {
 		return nil
 	})
 
-	if err := wg.Wait(); err != nil {
-		if ctxErr := ctx.Err(); ctxErr != nil {
-			// Parent context is canceled, propagating error to allow error
-			// traversal, like errors.Is(err, context.Canceled) assertion.
-			return errors.Wrap(multierr.Append(err, ctxErr), "parent context done")
-		}
-
+	err := wg.Wait()
+	if ctxErr := ctx.Err(); ctxErr != nil {
+		// Parent context is done: the handshake is aborted even if it has
+		// completed or the watchdog did not get to close the connection.
+		// Propagating error to allow error traversal, like
+		// errors.Is(err, context.Canceled) assertion.
+		_ = c.conn.Close()
+		return errors.Wrap(multierr.Append(err, ctxErr), "parent context done")
+	}
+	if err != nil {
 		return errors.Wrap(err, "failed")
 	}
 
